@@ -128,3 +128,21 @@ Proof. exact ok_clears_record_lemma. Qed.
 Theorem add_saves_every_recorded_service : forall F w a w' c,
   step F w (OAdd a) = (w', c) -> edisk (wenv w') = reg w'.
 Proof. exact add_saves_lemma. Qed.
+
+(* the registry file round trip for ANY list of service records and ANY field values: in particular
+   connected_peers = Some [] (a running node with no peer yet), Some [ids] and None are written differently and
+   read back as themselves.  The custom (de)serialisers present on NodeServiceData and their element-wise shape
+   are re-read from the source (fails closed); serde_json itself is exercised by the correspondence run, which
+   compares every field of every record of the reloaded file with the in-memory struct after every step. *)
+Theorem save_load_all_values : forall rg, load (save rg) = Some rg.
+Proof. exact save_load_lemma. Qed.
+
+Theorem connected_peers_encoding_injective : forall a b, jconn a = jconn b -> a = b.
+Proof. exact jconn_injective. Qed.
+
+Theorem registry_serde_as_in_source :
+  Consts.registry_custom_serde =
+    ["connected_peers"; "serialize_connected_peers"; "deserialize_connected_peers";
+     "peer_id"; "serialize_peer_id"; "deserialize_peer_id"]%string /\
+  Consts.connected_peers_serde_is_elementwise = true.
+Proof. exact registry_serde_constants. Qed.
